@@ -43,6 +43,11 @@ def entries(tier="quick"):
     add("Logit", lambda: nl.Logit(), [3], dom="unit")
     add("CauchyCDF", lambda: nl.CauchyCDF(), [3])
     add("CauchyCDFInverse", lambda: nl.CauchyCDFInverse(), [3], dom="unit")
+    # constructor arguments away from their defaults (whatever a constructor accepts must give a transform whose log-abs-det
+    # matches the map it applies)
+    add("CauchyCDF(location 0.5, scale 2)", lambda: nl.CauchyCDF(location=0.5, scale=2.0), [3])
+    add("CauchyCDFInverse(scale 3)", lambda: nl.CauchyCDFInverse(location=0.0, scale=3.0), [3], dom="unit")
+    add("LeakyReLU(slope 0.4)", lambda: nl.LeakyReLU(0.4), [3], kinks=True)
     add("CompositeCDF(Sigmoid,PiecewiseRQ)", lambda: nl.CompositeCDFTransform(nl.Sigmoid(), nl.PiecewiseRationalQuadraticCDF([3], num_bins=3)), [3], kinks=True)
     for nm, cls in (("PiecewiseLinearCDF", nl.PiecewiseLinearCDF), ("PiecewiseQuadraticCDF", nl.PiecewiseQuadraticCDF),
                     ("PiecewiseCubicCDF", nl.PiecewiseCubicCDF), ("PiecewiseRationalQuadraticCDF", nl.PiecewiseRationalQuadraticCDF)):
@@ -51,6 +56,10 @@ def entries(tier="quick"):
     # non-default minimum bin sizes / derivative (every path through a spline must use the configured values)
     add("PiecewiseRationalQuadraticCDF[3] tails, mins", lambda: nl.PiecewiseRationalQuadraticCDF(
         [3], num_bins=4, tails="linear", tail_bound=2.0, min_bin_width=0.05, min_bin_height=0.02, min_derivative=0.1), [3], kinks=True)
+    add("PiecewiseRationalQuadraticCDF[3] tails, mins (height minimum above width minimum)", lambda: nl.PiecewiseRationalQuadraticCDF(
+        [3], num_bins=8, tails="linear", tail_bound=2.0, min_bin_width=0.002, min_bin_height=0.06, min_derivative=0.01), [3], kinks=True)
+    add("PiecewiseQuadraticCDF[3] tails, mins (height minimum above width minimum)", lambda: nl.PiecewiseQuadraticCDF(
+        [3], num_bins=8, tails="linear", tail_bound=2.0, min_bin_width=0.002, min_bin_height=0.06), [3], kinks=True)
     add("PiecewiseQuadraticCDF[3] tails, mins", lambda: nl.PiecewiseQuadraticCDF(
         [3], num_bins=4, tails="linear", tail_bound=2.0, min_bin_width=0.05, min_bin_height=0.02), [3], kinks=True)
     add("PiecewiseCubicCDF[3] tails, mins", lambda: nl.PiecewiseCubicCDF(
